@@ -15,7 +15,8 @@ RULE = ("Each case = a generated program executed by both endpoints of one assoc
         "id-reuse phase and an association-end phase. Monitors: per-object lifecycle automaton sampled at every event and "
         "API call; datachannel-event matcher; bufferedAmount shadow (bytes accepted by send() minus bytes observed being "
         "handed to SCTP) compared at every sample; bufferedamountlow vs downward crossings. Non-trivial = program has a "
-        "close racing with open/ack, or a non-ASCII label, or creates from both sides; distinct = program+fault fingerprint.")
+        "close racing with open/ack, or a non-ASCII label, or creates from both sides; distinct = program+fault fingerprint."
+        " close() may also be called from inside the channel's open handler.")
 ASSUMPTIONS = [
     "same rig assumptions as C01; bufferedAmount equality is not evaluated in relay mode while a hand-over is suspended",
     "W3C semantics assumed for bufferedAmount after close (not reset): equality is only required while the channel is open",
